@@ -57,6 +57,11 @@ def gen_config(rng, escape=None, kicks=None, ntout=None, cls=None):
         cfg["BH_ret_dyn"] = rng.choice([0.0, 0.2, 0.7, 0.95])
     if rng.random() < 0.35:
         cfg["imf_ext"] = rng.choice(["extrapolate", "extrapolate", "zeros", "raise"])
+    if rng.random() < 0.15 and isinstance(cfg["nbins"], list):
+        # bins on breaks of their own, covering only part of the IMF's range (IMF breaks inside stay bin edges)
+        bb = [mb[0] * rng.choice([1.0, 2.0])] + inner + [hi * rng.choice([1.0, 0.6])]
+        if all(y > x for x, y in zip(bb, bb[1:])):
+            cfg["binning_breaks"] = bb
     if cfg["cls"] == "EvolvedMFWithBH":
         cfg.pop("BH_ret_dyn", None)
         cfg["f_BH"] = [rng.choice([0.0, 1e-4, 1e-3]) for _ in tout]
